@@ -8,6 +8,7 @@
 From P7 Require Import Prelude PyPrims Number Header HeaderPrims Spec SpecProofs.
 From P7 Require PackInfoGen.
 From P7 Require HeaderGenPrims FolderGen.
+From P7 Require SubstreamsGen.
 From P7gen Require ArchiveinfoRecords.
 Open Scope Z_scope.
 
@@ -219,3 +220,24 @@ Print Assumptions C07_gen_unpackinfo_strict.
 Theorem C07_gen_write_crcs_is_wr_list : forall crcs, ArchiveinfoRecords.write_crcs crcs = wr_list (wr_fixed 4) crcs.
 Proof. exact HeaderGenPrims.gen_write_crcs_wr_list. Qed.
 Print Assumptions C07_gen_write_crcs_is_wr_list.
+
+(* ---- third wave (stage 3): SubstreamsInfo.write as translated on this run is write_substreams, for every object. ---- *)
+Theorem C07_gen_SubstreamsInfo_write_is_write_substreams : forall self : ArchiveinfoRecords.SubstreamsInfo,
+  ArchiveinfoRecords.SubstreamsInfo_write self = write_substreams (SubstreamsGen.sub_of self).
+Proof. exact SubstreamsGen.gen_SubstreamsInfo_write_eq_model. Qed.
+Print Assumptions C07_gen_SubstreamsInfo_write_is_write_substreams.
+
+(* hence the section theorem over the generated writer *)
+Theorem C07_gen_substreams_strict : forall lim fs (self : ArchiveinfoRecords.SubstreamsInfo) sz bs,
+  let s := SubstreamsGen.sub_of self in
+  Forall (fun f => wfw_folder lim f = true) fs -> zlen fs <= lim ->
+  wfw_sub lim fs s = true -> s_sizes s = Some sz -> (length (s_nums s) =? 0)%nat = false ->
+  ArchiveinfoRecords.SubstreamsInfo_write self = Ok bs ->
+  exists body, bs = 8 :: body /\ 
+    forall r, s_substreams lim (map sem_folder fs) (body ++ r) =
+              Ok ((s_nums s, sz, crc_opts (Header.s_digests s) (s_digestsdefined s)), r).
+Proof.
+  intros lim fs self sz bs s HF Hn Hwf Hsz Hne Hw. rewrite SubstreamsGen.gen_SubstreamsInfo_write_eq_model in Hw.
+  exact (s_substreams_wr lim fs s sz bs HF Hn Hwf Hsz Hne Hw).
+Qed.
+Print Assumptions C07_gen_substreams_strict.
